@@ -1,5 +1,6 @@
 import Model.Path.Path
-/-! A concrete `literal_eval` for the element texts the path parser can meet on rendered paths:
+/-! A concrete `literal_eval` for the element texts the path parser can meet (white space around the
+expression is ignored, as the Python tokenizer does):
 quoted strings without backslash / line break / NUL, decimal ints, float reprs, `None`, `True`,
 `False`.  Everything else "raises" (`none`).  Used by the driver; the theorems quantify over every
 `LitEval` that satisfies `LE`/`RE` and `leImpl_ok` shows this one does. -/
@@ -26,7 +27,7 @@ def isFloatText (cs : List Char) : Bool :=
     | _ :: fd => allDigits ip && (allDigits fd || fd.isEmpty)
   mantOk && expOk
 
-def leImpl : LitEval := fun e =>
+def leCore : LitEval := fun e =>
   match e with
   | [] => none
   | q :: rest =>
@@ -44,5 +45,13 @@ def leImpl : LitEval := fun e =>
     else match e with
       | '-' :: ds => if allDigits ds then some (.int (-(parseNat ds : Int))) else if isFloatText e then some (.float e) else none
       | _ => if isFloatText e then some (.float e) else none
+
+/-- the white space the Python tokenizer ignores around an expression -/
+def isWs (c : Char) : Bool := c == ' ' || c == '\t' || c == '\n' || c == '\r' || c == Char.ofNat 12
+
+def stripWs (e : List Char) : List Char := ((e.dropWhile isWs).reverse.dropWhile isWs).reverse
+
+/-- `ast.literal_eval` on an element text: surrounding white space is ignored -/
+def leImpl : LitEval := fun e => leCore (stripWs e)
 
 end Path
